@@ -87,7 +87,8 @@ def _unit_worker(args):
         out.append({"name": ob.fullname, "kind": ob.kind, "status": st_, "backend": backend,
                     "time_s": round(t, 4), "model": model if st_ == "sat" else None,
                     "reason": reason, "info": {k: str(v) for k, v in (ob.info or {}).items()},
-                    "smt2_head": None})
+                    "smt2_head": None,
+                    "retry_smt2": job[0] if st_ == "unknown" else None})
     funcs = [e.describe() for e in r.functions.values()]
     sample = obs[0].smt2()[:1500] if obs else None
     return {"unit": u.name, "target": getattr(u, "target", u.name), "obligations": out,
@@ -99,10 +100,27 @@ def _unit_worker(args):
 
 def verify_units(prop_id, tier, nunits, timeout_ms, both):
     from concurrent.futures import ProcessPoolExecutor
+    from pyvc import smt
     jobs = [(prop_id, i, tier, timeout_ms, both) for i in range(nunits)]
     workers = min(int(os.environ.get("VERIF_WORKERS", "14")), max(1, nunits))
     with ProcessPoolExecutor(max_workers=workers) as ex:
-        return list(ex.map(_unit_worker, jobs, chunksize=1))
+        ures = list(ex.map(_unit_worker, jobs, chunksize=1))
+    # wall-clock solver budgets depend on the load of the machine: what is still open after the first pass is tried
+    # once more, after all units are done, with six times the budget (a busy machine must not flip a verdict)
+    again = [ob for ur in ures if "crash" not in ur for ob in ur["obligations"] if ob.get("retry_smt2")]
+    if again and not os.environ.get("VERIF_NO_RETRY"):
+        with ProcessPoolExecutor(max_workers=min(workers, len(again))) as ex:
+            res = list(ex.map(smt.solve_one, [(ob["retry_smt2"], 6 * timeout_ms, True, True, False) for ob in again], chunksize=1))
+        for ob, (status, model, t, backend, reason, extra) in zip(again, res):
+            ob["time_s"] = round(ob["time_s"] + t, 4)
+            if status in ("sat", "unsat"):
+                ob["status"] = "discharged" if status == "unsat" else "sat"
+                ob["backend"], ob["reason"] = backend, "second pass (6x budget)"
+                ob["model"] = model if status == "sat" else None
+    for ur in ures:
+        for ob in ur.get("obligations", []):
+            ob.pop("retry_smt2", None)
+    return ures
 
 
 def check(prop_id, tier, seed):
